@@ -118,7 +118,7 @@ align 16
 	vpcmpeqb ymm0, ymm2, ymm0
 	vpmovmskb DWORD(tmp0), ymm0
 	not	DWORD(tmp0)
-	add	DWORD(tmp1), DWORD(tmp0)
+	or	DWORD(tmp1), DWORD(tmp0) ; not add: 1 + an all-ones mask would wrap to zero
 	jz	.mem_z_loop
 
 .return:
